@@ -288,9 +288,14 @@ def coq_project():
 def coq_make(targets, timeout=3000):
     """full .vo build of the targets (never -vos).  returns (ok, log)"""
     coq_project()
-    rc, out = sh(["make", "-k", "-j%d" % NCPU] + targets, cwd=COQ, timeout=timeout,
+    # every file is compiled under its own time limit (the slowest takes about 80 s alone): a proof script that
+    # no longer fits the generated code must fail, not search for an hour
+    rc, out = sh(["make", "-k", "-j%d" % NCPU, "COQC=timeout %d coqc" % COQ_FILE_LIMIT] + targets, cwd=COQ, timeout=timeout,
                  env={"TIMED": ""})
     return rc == 0, out
+
+
+COQ_FILE_LIMIT = 300
 
 
 def coq_first_error(logtxt):
@@ -298,6 +303,9 @@ def coq_first_error(logtxt):
     m = re.search(r'File "\./([^"]+)", line (\d+), characters [^\n]*\n(Error:.*?)(?:\n\n|\nmake|\Z)', logtxt, re.S)
     if m:
         return m.group(1), int(m.group(2)), m.group(3).strip()[:2000]
+    t = re.search(r"\*\*\* \[[^\]]*?: ([A-Za-z0-9_/]+)\.vo\] Error 124", logtxt)
+    if t:
+        return t.group(1) + ".v", 0, "Error: the file does not compile within %d s (a proof no longer fits the generated code)" % COQ_FILE_LIMIT
     return None
 
 
